@@ -30,6 +30,11 @@ KINDS = {
     "closure": (LEAF + "def outer():\n    def inner(a):\n        c = tgt(a)\n        return c\n    return inner\n\n", ["h = outer()"], "h(1)", {}),
     "nested_def": (LEAF + "def outer(a):\n    def inner(b):\n        c = tgt(b)\n        return c\n    d = inner(a)\n    return d\n\n", [], "outer(1)", {}),
     "method_returns_call": (LEAF + "class K:\n    def __init__(self, v):\n        self.v = v\n\n    def m(self, x):\n        return tgt(x)\n\n", ["o = K(1)"], "o.m(2)", {}),
+    # keyword arguments written in another order than the alphabetical one, one of them a function the callee calls
+    "callback_keywords": (LEAF + "def retry(times, action, arg):\n    r = action(arg)\n    return r\n\n", [], "retry(times=3, action=tgt, arg=4)", {}),
+    "callback_keywords_mixed": (LEAF + "def retry(times, action, arg):\n    r = action(arg)\n    return r\n\n", [], "retry(3, arg=4, action=tgt)", {}),
+    # a file inside a package that imports through the package-qualified absolute path
+    "package_import": ("from shop.core.pricing import tgt\n\ndef other(a):\n    return a\n\n", [], "tgt(1)", {"shop/core/pricing.py": LEAF}, "shop/api/orders.py"),
     "cross_module": ("from lib import tgt\n\ndef other(a):\n    return a\n\n", [], "tgt(1)", {"lib.py": LEAF}),
     "cross_module_alias": ("from lib import tgt as t2\n\ndef other(a):\n    return a\n\n", [], "t2(1)", {"lib.py": LEAF}),
     "cross_module_class": ("from lib import K\n\ndef other(a):\n    return a\n\n", ["o = K(1)"], "o.m(2)", {"lib.py": LEAF + CLS_K}),
@@ -80,11 +85,12 @@ CONTEXTS = {"top": ctx_top, "function": ctx_function, "entry": ctx_entry, "branc
 
 
 def program(kind, ctx):
-    defs, setup, call, extra = KINDS[kind]
+    defs, setup, call, extra = KINDS[kind][:4]
+    main = KINDS[kind][4] if len(KINDS[kind]) > 4 else "main.py"
     body, start = CONTEXTS[ctx](list(setup), call)
     files = dict(extra)
-    files["main.py"] = defs + "\n".join(body) + "\n"
-    return {"name": "%s__%s" % (kind, ctx), "files": files, "main": "main.py", "start": start, "kind": kind, "ctx": ctx}
+    files[main] = defs + "\n".join(body) + "\n"
+    return {"name": "%s__%s" % (kind, ctx), "files": files, "main": main.rsplit("/", 1)[-1], "start": start, "kind": kind, "ctx": ctx}
 
 
 # ------------------------------------------------------------------------------------------ javascript
